@@ -400,6 +400,39 @@ func CallTick() { atomic.AddInt64(&callTick, 1) }
 // CallTicks returns the counter.
 func CallTicks() int64 { return atomic.LoadInt64(&callTick) }
 
+// Watchdog is the wall-clock guard around a harness wait. It is never a verdict: its firing makes the case
+// inconclusive. To stay quiet on a loaded machine it expires only after `quiet` without the harness having seen any
+// I/O or call complete (the tick counter standing still), or after 6 x quiet in total.
+type Watchdog struct {
+	quiet, hard     time.Duration
+	start, lastProg time.Time
+	lastTicks       int64
+}
+
+// NewWatchdog starts a watchdog.
+func NewWatchdog(quiet time.Duration) *Watchdog {
+	now := time.Now()
+	return &Watchdog{quiet: quiet, hard: 6 * quiet, start: now, lastProg: now, lastTicks: CallTicks()}
+}
+
+// Expired must be polled regularly (the sliced waits do, every DeadPollEvery at most).
+func (w *Watchdog) Expired() bool {
+	now := time.Now()
+	if t := CallTicks(); t != w.lastTicks {
+		w.lastTicks, w.lastProg = t, now
+	}
+	return now.Sub(w.lastProg) > w.quiet || now.Sub(w.start) > w.hard
+}
+
+// Remaining is the time until the watchdog can expire at the earliest.
+func (w *Watchdog) Remaining() time.Duration {
+	r := w.quiet - time.Since(w.lastProg)
+	if h := w.hard - time.Since(w.start); h < r {
+		r = h
+	}
+	return r
+}
+
 func processCPU() time.Duration {
 	var ru syscall.Rusage
 	if err := syscall.Getrusage(syscall.RUSAGE_SELF, &ru); err != nil {
